@@ -68,6 +68,9 @@ def isoTextLen (t : Nat) : Nat := if t % 1000000 = 0 then 19 else 26
 /-- Length of the decimal text of a number (the ICMP identifier `secrets.randbits(16)` inside the JSON of a frame). -/
 def decimalLen (n : Nat) : Nat := (Nat.repr n).length
 
+/-- Length of `secrets.token_urlsafe(n)`: unpadded base64 of `n` bytes — the same for every value drawn. -/
+def tokenUrlsafeLen (n : Nat) : Nat := (4 * n + 2) / 3
+
 /-! ## programs -/
 
 /-- Effects of the simulator. Handles are allocation indices. -/
